@@ -75,7 +75,7 @@ def client_negotiation_stims(seed, tier):
                     rnd.shuffle(ca)
                     out.append({'mode': 'client', 'class': 'client_negotiation', 'transport': 'inproc', 'shim': {'cap': 0, 'rq': 0, 'wq': 0, 'pend': 0}, 'shape': shape,
                                 'server': {'send': ss, 'accept': sa, 'max_dec': -1, 'max_enc': -1},
-                                'client': {'send': cs, 'accept': list(ca), 'max_dec': -1, 'max_enc': -1},
+                                'client': {'send': cs, 'accept': list(ca), 'max_dec': -1, 'max_enc': -1, 'clone': rnd.random() < 0.4},
                                 'req': {'meta': [], 'msgs': [[5] * 50] if shape in ('unary', 'sstream') else [[5] * 50, [], [1]]},
                                 'script': {'init_meta': [], 'msgs': [[9] * 60] if shape in ('unary', 'cstream') else [[9] * 60, [8]],
                                            'end': {'ok': True}, 'fail_before': False, 'no_compress': rnd.random() < 0.2}})
@@ -181,6 +181,7 @@ def limit_stims(seed, tier):
               'req': {'meta': [], 'msgs': msgs(nreq)},
               'script': {'init_meta': [], 'msgs': msgs(nresp), 'end': {'ok': True}, 'fail_before': False, 'no_compress': False}}
         st[side][key] = L
+        st['client']['clone'] = rnd.random() < 0.5        # the call is made on a clone of the configured client
         out.append(st)
     return out
 
